@@ -95,7 +95,7 @@ class _TextCueParser:
 
     tag = token.tag.lower()
 
-    if tag.startswith("ruby"):
+    if tag.startswith("ruby") and (isinstance(self.parent, model.P) or self.ruby_rbc is not None):
       if self.ruby_rbc is not None or self.ruby_rtc is not None:
         raise RuntimeError("Nested ruby tags are not allowed.")
       span = model.Ruby(self.parent.get_doc())
